@@ -44,21 +44,19 @@ def empty():
 
 # ---------------------------------------------------------------- translation
 def free_trans(n_degrees, molecular_weight, T, P):
-    """Ideal-gas translation with n translational degrees of freedom (equipartition).
-    For n = 3: Sackur-Tetrode.  Returns S and q only for n = 3 (None otherwise)."""
+    """Ideal-gas translation with n translational degrees of freedom.  Equipartition gives
+    Cv = n/2 R, U = n/2 RT, H = U + RT.  With the single-particle partition function
+    q = (2 pi m kB T / h^2)^(n/2) * v  (v = kB T / P, the volume per molecule, as the FreeTrans
+    docstring defines it for every n) the canonical ensemble gives S/R = ln q + 1 + n/2
+    (S = U/T + k ln(q^N/N!) with Stirling); for n = 3 this is the Sackur-Tetrode equation
+    S/R = 5/2 + ln[(2 pi m kB T/h^2)^(3/2) kB T/P]."""
     n = float(n_degrees)
-    d = {'CvoR': n / 2.0, 'CpoR': n / 2.0 + 1.0, 'UoRT': n / 2.0, 'HoRT': n / 2.0 + 1.0}
-    if n_degrees == 3:
-        m = molecular_weight * 1.0e-3 / NA                      # kg per molecule
-        lam3 = (2.0 * math.pi * m * KB * T / H ** 2) ** 1.5     # 1/Lambda^3
-        v = KB * T / (P * BAR)                                  # volume per molecule
-        d['q'] = lam3 * v
-        d['SoR'] = 2.5 + math.log(lam3 * v)                     # Sackur-Tetrode
-        _finish(d)
-    else:
-        d['q'] = None
-        d['SoR'] = d['FoRT'] = d['GoRT'] = None
-    return d
+    m = molecular_weight * 1.0e-3 / NA                          # kg per molecule
+    lam = (2.0 * math.pi * m * KB * T / H ** 2) ** (n / 2.0)    # 1/Lambda^n
+    v = KB * T / (P * BAR)                                      # volume per molecule
+    d = {'CvoR': n / 2.0, 'CpoR': n / 2.0 + 1.0, 'UoRT': n / 2.0, 'HoRT': n / 2.0 + 1.0,
+         'q': lam * v, 'SoR': 1.0 + n / 2.0 + math.log(lam * v)}
+    return _finish(d)
 
 
 # ---------------------------------------------------------------- vibrations
